@@ -1,20 +1,154 @@
 import NdnVerif.Driver.Common
-import NdnVerif.C14.Model
+import NdnVerif.C14.Spec
 open Ndn Ndn.Driver Ndn.C14
 
-def intStr (i : Int) : String := toString i
+/-- spec state: hashes and encodings seen in this history (implementation outputs only) -/
+structure S14 where
+  hashes : List (String × String) := []   -- name text ↦ hash reported by the implementation
+  encs : List (String × String) := []     -- encoding hex ↦ name text
 
-def stepC14 (_ : Unit) (op : String) (got : String) : StepResult Unit :=
+def resName : Res Name → String
+  | .ok n => n.toText
+  | .err => "err"
+  | .panic => "PANIC"
+
+def resComp : Res Component → String
+  | .ok c => c.toText
+  | .err => "err"
+  | .panic => "PANIC"
+
+def optName : Option Name → String
+  | some n => n.toText
+  | none => "err"
+
+def crashSpec (what got : String) : List SpecFail :=
+  if isCrash got then [⟨"no-panic", what, s!"{what} crashed: {got}"⟩] else []
+
+def boolStr (b : Bool) : String := if b then "true" else "false"
+
+def bad (s : S14) : StepResult S14 := { st := s, expected := some "bad-op" }
+
+def stepC14 (s : S14) (op : String) (got : String) : StepResult S14 :=
   match op.splitOn " " with
-  | ["new"] => { st := (), expected := some "ok" }
+  | ["new"] => { st := {}, expected := some "ok" }
   | ["cmp", a, b] =>
     match Name.ofText a, Name.ofText b with
     | some x, some y =>
       let c := cmpName x y
-      { st := (), expected := some (intStr c), cov := [if c == 0 then "cmp-eq" else "cmp-ne"],
+      let want := canonCmp x y
+      { st := s, expected := some (toString c),
+        cov := [if c == 0 then "cmp-eq" else if x.isPrefixOf y || y.isPrefixOf x then "cmp-prefix" else "cmp-ne"],
         nontrivial := x.length > 0 && y.length > 0,
-        spec := if isCrash got then [⟨"no-panic", "cmp", s!"Compare crashed: {got}"⟩] else [] }
-    | _, _ => { st := (), expected := some "bad-op" }
-  | _ => { st := (), expected := some "bad-op" }
+        spec := crashSpec "Compare" got ++
+          (if got != toString want then [⟨"canonical-order", "cmp", s!"Compare({a},{b}) = {got}, canonical order says {want}"⟩] else []) }
+    | _, _ => bad s
+  | ["eq", a, b] =>
+    match Name.ofText a, Name.ofText b with
+    | some x, some y =>
+      { st := s, expected := some (boolStr (eqName x y)), cov := [if x == y then "eq-true" else "eq-false"],
+        spec := crashSpec "Equal" got ++
+          (if got != boolStr (x == y) then [⟨"equality", "eq", s!"Equal({a},{b}) = {got}"⟩] else []) }
+    | _, _ => bad s
+  | ["pfx", a, b] =>
+    match Name.ofText a, Name.ofText b with
+    | some x, some y =>
+      { st := s, expected := some (boolStr (isPrefix x y)), cov := [if x.isPrefixOf y then "pfx-true" else "pfx-false"],
+        spec := crashSpec "IsPrefix" got ++
+          (if got != boolStr (x.isPrefixOf y) then [⟨"prefix", "pfx", s!"IsPrefix({a},{b}) = {got}"⟩] else []) }
+    | _, _ => bad s
+  | ["rt", a] =>
+    -- Name.Bytes then NameFromBytes; output "<hex> <decoded name>"
+    match Name.ofText a with
+    | some x =>
+      let e := encName x
+      let hex := hexOfBytes e
+      let parts := got.splitOn " "
+      let gotHex := parts.headD ""
+      let gotName := parts.getD 1 ""
+      let clash := s.encs.find? (fun p => p.1 == gotHex && p.2 != a)
+      { st := { s with encs := (gotHex, a) :: s.encs },
+        expected := some s!"{hex} {optName (nameFromBytes e)}",
+        cov := [if e.length > 255 then "rt-long" else "rt-short"],
+        nontrivial := x.any (fun c => c.val.length ≥ 253),
+        spec := crashSpec "Bytes/NameFromBytes" got ++
+          (if !isCrash got && gotName != a then [⟨"encode-decode", "rt", s!"NameFromBytes(Bytes({a})) = {gotName}"⟩] else []) ++
+          (match clash with
+           | some p => [⟨"encoding-injective", "rt", s!"names {p.2} and {a} have the same encoding"⟩]
+           | none => []) }
+    | none => bad s
+  | ["crt", c] =>
+    match Component.ofText c with
+    | some x =>
+      let e := encComp x
+      let parts := got.splitOn " "
+      let gotC := parts.getD 1 ""
+      { st := s, expected := some s!"{hexOfBytes e} {match compFromBytes e with | some y => y.toText | none => "err"}",
+        cov := ["crt"],
+        spec := crashSpec "Component.Bytes/ComponentFromBytes" got ++
+          (if !isCrash got && gotC != c then [⟨"encode-decode", "crt", s!"ComponentFromBytes(Bytes({c})) = {gotC}"⟩] else []) }
+    | none => bad s
+  | ["dec", h] =>
+    match bytesOfHex h with
+    | some b => { st := s, expected := some (optName (nameFromBytes b)),
+                  cov := [if (nameFromBytes b).isSome then "dec-ok" else "dec-err"], spec := crashSpec "NameFromBytes" got }
+    | none => bad s
+  | ["cdec", h] =>
+    match bytesOfHex h with
+    | some b => { st := s, expected := some (match compFromBytes b with | some y => y.toText | none => "err"),
+                  cov := ["cdec"], spec := crashSpec "ComponentFromBytes" got }
+    | none => bad s
+  | ["str", a] =>
+    match Name.ofText a with
+    | some x => { st := s, expected := some (hexOrDash (nameToStr x)), cov := ["str"], spec := crashSpec "String" got }
+    | none => bad s
+  | ["canon", c] =>
+    match Component.ofText c with
+    | some x => { st := s, expected := some (hexOrDash (compCanon x)), cov := ["canon"], spec := crashSpec "CanonicalString" got }
+    | none => bad s
+  | ["urt", a] =>
+    -- Name.String then NameFromStr; output "<hex of string> <parsed name>"
+    match Name.ofText a with
+    | some x =>
+      let str := nameToStr x
+      let parts := got.splitOn " "
+      let gotName := parts.getD 1 ""
+      let ok := nameUriOk x
+      { st := s, expected := some s!"{hexOrDash str} {resName (nameFromStr str)}",
+        cov := [if ok then "urt-guarded" else "urt-unguarded"], nontrivial := ok && x.length > 0,
+        spec := crashSpec "String/NameFromStr" got ++
+          (if ok && !isCrash got && gotName != a then [⟨"uri-roundtrip", "urt", s!"NameFromStr(String({a})) = {gotName}"⟩] else []) }
+    | none => bad s
+  | ["parse", h] =>
+    match bytesOfHex h with
+    | some b =>
+      let r := nameFromStr b
+      { st := s, expected := some (resName r),
+        cov := [match r with | .ok _ => "parse-ok" | .err => "parse-err" | .panic => "parse-panic"],
+        spec := crashSpec "NameFromStr" got }
+    | none => bad s
+  | ["cparse", h] =>
+    match bytesOfHex h with
+    | some b =>
+      let r := compFromStr b
+      { st := s, expected := some (resComp r),
+        cov := [match r with | .ok _ => "cparse-ok" | .err => "cparse-err" | .panic => "cparse-panic"],
+        spec := crashSpec "ComponentFromStr" got }
+    | none => bad s
+  | ["h", a] =>
+    -- hash values are not compared with a model (any hash function is fine); only the laws are checked
+    let prev := s.hashes.find? (fun p => p.1 == a)
+    { st := { s with hashes := (a, got) :: s.hashes }, expected := none, cov := ["hash"],
+      spec := crashSpec "Hash" got ++
+        (match prev with
+         | some p => if p.2 != got then [⟨"hash-of-equal-names", "h", s!"Hash({a}) gave {p.2} and then {got}"⟩] else []
+         | none => []) }
+  | ["ph", _a] =>
+    -- output "<PrefixHash() list> <Hash() of each prefix>" : must agree position by position
+    let parts := got.splitOn " "
+    { st := s, expected := none, cov := ["prefix-hash"],
+      spec := crashSpec "PrefixHash" got ++
+        (if !isCrash got && parts.getD 0 "x" != parts.getD 1 "y" then
+          [⟨"prefix-hash", "ph", s!"PrefixHash differs from the hashes of the prefixes: {got}"⟩] else []) }
+  | _ => bad s
 
-def main : IO Unit := Ndn.Driver.run () stepC14
+def main : IO Unit := Ndn.Driver.run ({} : S14) stepC14
